@@ -225,6 +225,21 @@ def r4_planner(ctx):
                 fits_when_true = r["op"] in ("Le", "Lt") and seg_size in (Slice(b, [op_local(r["o"][1])]).locals if op_local(r["o"][1]) is not None else ())
                 fits_when_true = fits_when_true or (r["op"] in ("Ge", "Gt") and seg_size in (Slice(b, [op_local(r["o"][0])]).locals if op_local(r["o"][0]) is not None else ()))
                 caps.append((i, st, fits_when_true))
+    if not caps and cur is not None:
+        # the cursor IS compared - with something that is not the segment size the caller gave
+        other = []
+        for i, j, st in b.stmts():
+            r = st["r"]
+            if r["k"] == "Bin" and r["op"] in ("Le", "Lt", "Ge", "Gt"):
+                sl = Slice(b, [op_local(o) for o in r["o"] if op_local(o) is not None])
+                if cur in sl.locals and (seg_size is None or seg_size not in sl.locals):
+                    other.append(st)
+        if other:
+            ctx.bad(rule, [b.id, "capacity-not-the-argument"],
+                    "plan_archive_merge tests the destination cursor against a bound that does not derive from its `segment_size` argument (a constant or another "
+                    "value, line %s): for any segment size other than that bound the plan fills a destination beyond its size" % other[0].get("l", "?"),
+                    "%s:%s" % (b.file, other[0].get("l", 0)))
+            return
     if not ctx.anchor(rule, caps, "capacity comparison against segment_size in plan_archive_merge"):
         return
     for n, p in enumerate(pushes):
@@ -263,7 +278,40 @@ def r4_planner(ctx):
                   {k: v for k, v in kinds.items()}, b.loc(), sample={"initialisations": kinds})
 
 
+def r5_saved_from_file(ctx):
+    """'reports the bytes saved truthfully' and 'the file is exactly the live bytes': once the spans were validated, every success return of
+    extract_compact_segment reports a value computed from the file's length (and the truncation decision is taken from it) - a constant Ok(0)
+    behind the validation ("nothing to move") leaves a dead tail in place and reports nothing saved"""
+    rule = "C18.R5"
+    ctx.rule(rule, "after validate_spans every Ok(n) of extract_compact_segment derives n from the file's length")
+    b = fn(ctx, rule, "extract_compact_segment")
+    if not b:
+        return
+    ctx.saw(b)
+    vs = b.calls_matching(r"compaction::validate_spans$")
+    if not ctx.anchor(rule, vs, "validate_spans call in extract_compact_segment"):
+        return
+    after = b.reachable(b.succ[vs[0].bb])
+    n = 0
+    for (i, j, st) in assigns_variant(b, "Ok", adt_pat=r"result::Result", with_stmt=True):
+        if i not in after or i not in b.live_blocks():
+            continue
+        o = st["r"]["o"][0] if st["r"].get("o") else None
+        n += 1
+        l = op_local(o) if o is not None else None
+        from_len = False
+        if l is not None:
+            sl = Slice(b, [l], transparent=True)
+            from_len = any(re.search(r"fs::Metadata::len$|\bSeek>?::(seek|stream_position)$", c.name + " " + (c.orig_name or "")) for c in sl.calls)
+        ctx.check(from_len, rule, [b.id, "saved-from-file-length"], "the reported saving derives from the file's length",
+                  "extract_compact_segment returns Ok(%s) after the spans were validated without looking at the file's length: a file whose live spans are already "
+                  "contiguous but which has dead bytes behind the last span keeps them, and 0 bytes are reported as saved" % (op_const(o) if o is not None and o["k"] == "c" else "a value that does not depend on it"),
+                  "%s:%s" % (b.file, st.get("l", 0)), sample={"ok_line": st.get("l", 0)})
+    ctx.floor(rule, n, 1, "Ok returns of extract_compact_segment behind the validation")
+
+
 def run(ctx):
+    r5_saved_from_file(ctx)
     r1_validate_first(ctx)
     r2_validate_shape(ctx)
     r3_copy_direction(ctx)
